@@ -87,8 +87,8 @@ def _scf(case, atoms, dm0=None, frozen_grid=None):
         mf.grids.screen_index = mf.grids.non0tab
     try:
         mf.kernel(dm0=dm0)
-    except RuntimeError as e:
-        if "NLDF exponent is too large" in str(e):
+    except Exception as e:
+        if "exponent" in str(e).lower() and "large" in str(e).lower():
             # the documented guard of the plan (C18): the drawn exponent parameters exceed the default ladder for this
             # molecule -- a rejected configuration, not a force
             raise Skip()
